@@ -130,6 +130,12 @@ impl TaskHandle {
         self.events.lock().await.clone()
     }
 
+    /// The history as it is right now, or `None` while a frame is being recorded. Never waits.
+    pub(crate) fn try_events_snapshot(&self) -> Option<Vec<Event>> {
+        let events = self.events.try_lock().ok()?;
+        Some(events.clone())
+    }
+
     pub(crate) fn cancel(&self, reason: String) -> bool {
         self.cancel_tx.send_replace(Some(reason)).is_none()
     }
